@@ -1,0 +1,16 @@
+//go:build verif
+
+package paths
+
+// Contracts for gvc (see /verif/DESIGN.md). Comment-only: this file adds no code to any build.
+
+//@ func isParamSegment props C15,C14 pure
+//@ ensures result == (strings.HasPrefix(seg, "{") && strings.HasSuffix(seg, "}"))
+
+//@ spec segOK(x string, y string) bool = x == y || isParamSegment(x) || isParamSegment(y)
+
+//@ func patternsConflict props C15,C14
+//@ ensures result == (len(a) == len(b) && forall(i, 0, len(a), segOK(a[i], b[i])))
+//@ loop 0 invariant len(a) == len(b) && 0 <= _n && _n <= len(a)
+//@ loop 0 invariant forall(k, 0, _n, segOK(a[k], b[k]))
+//@ loop 0 decreases len(a) - _n
